@@ -259,6 +259,10 @@ func registerCodecModels(e *Engine) {
 		}
 		// unknown text: decoding fails, or yields some bytes
 		okT := UFSort("b64ok."+enc, SBool, t)
+		if name := x.certSymbol(t); name != "" {
+			// a certificate text the harness marks valid is the base64 of a DER certificate
+			x.assume(Implies(x.sym(name+".valid", SBool), okT))
+		}
 		if x.attr(t, "undecodable") {
 			if !x.Branch(okT) {
 				return TupleV{&BytesV{T: StrC(""), Nil: true}, x.errorC("illegal base64 data")}
@@ -543,6 +547,10 @@ func registerCodecModels(e *Engine) {
 			return TupleV{mk(d.Args[0], d.Args[1]), &BytesV{T: StrC("")}}
 		}
 		// arbitrary bytes: either no PEM block is found, or one with arbitrary content
+		if name := x.certSymbol(d); name != "" {
+			// ... of the DER bytes themselves, not of a PEM block
+			x.assume(Implies(x.sym(name+".valid", SBool), Not(UFSort("pem.found", SBool, d))))
+		}
 		if x.Branch(UFSort("pem.found", SBool, d)) {
 			return TupleV{mk(UF("pem.type", d), UF("pem.bytes", d)), &BytesV{T: UF("pem.rest", d)}}
 		}
